@@ -11,7 +11,7 @@ import concurrent.futures, json, os, re, shutil, subprocess, sys, tempfile, time
 
 V = "/verif"
 args = sys.argv[1:]
-tier, jobs, workers, props_override, seeds = "quick", 2, 8, None, []
+tier, jobs, workers, props_override, seeds, sdir = "quick", 2, 8, None, [], "seeded"
 while args:
     a = args.pop(0)
     if a == "--tier":
@@ -22,16 +22,18 @@ while args:
         workers = int(args.pop(0))
     elif a == "--props":
         props_override = args.pop(0).split(",")
+    elif a == "--dir":
+        sdir = args.pop(0)  # "benign": property-preserving changes, every check is expected to exit 0
     else:
         seeds.append(a)
 if not seeds:
-    seeds = sorted(d for d in os.listdir(os.path.join(V, "seeded")) if os.path.isdir(os.path.join(V, "seeded", d)))
+    seeds = sorted(d for d in os.listdir(os.path.join(V, sdir)) if os.path.isdir(os.path.join(V, sdir, d)))
 
 
 def one(seed):
-    d = os.path.join(V, "seeded", seed)
+    d = os.path.join(V, sdir, seed)
     meta = json.load(open(os.path.join(d, "meta.json")))
-    props = props_override or [meta["property"]] + list(meta.get("also", []))
+    props = props_override or ([meta["property"]] + list(meta.get("also", [])) if "property" in meta else list(meta.get("touches", [])))
     wt = tempfile.mkdtemp(prefix="seedmx-")
     os.rmdir(wt)
     out = {}
@@ -54,7 +56,7 @@ def one(seed):
     return seed, out
 
 
-res_path = os.path.join(V, "seeded", "RESULTS.json")
+res_path = os.path.join(V, sdir, "RESULTS.json")
 allres = json.load(open(res_path)) if os.path.exists(res_path) else {}
 with concurrent.futures.ThreadPoolExecutor(jobs) as ex:
     for seed, out in ex.map(one, seeds):
@@ -69,4 +71,8 @@ with concurrent.futures.ThreadPoolExecutor(jobs) as ex:
         sys.stdout.flush()
 json.dump(allres, open(res_path, "w"), indent=1, sort_keys=True)
 missed = [s for s in seeds if not any(o.get("rc") == 1 for k, o in allres.get(s, {}).items() if isinstance(o, dict) and k.endswith(":" + tier))]
-print("seeds run: %d, not caught by any check run here: %s" % (len(seeds), missed))
+if sdir == "benign":
+    alarms = [s for s in seeds if any(o.get("rc") != 0 for k, o in allres.get(s, {}).items() if isinstance(o, dict) and k.endswith(":" + tier))]
+    print("benign changes run: %d, raising an alarm (must be empty): %s" % (len(seeds), alarms))
+else:
+    print("seeds run: %d, not caught by any check run here: %s" % (len(seeds), missed))
